@@ -200,14 +200,17 @@ class C17(Spec):
                   'erased entry gone), GC_Rehash, the in-place sweep loop keeps exactly the marked-or-root entries and lists every other entry once '
                   '(wrap-around included), GC_Sweep as a whole against a ledger; C17_rem_nested / C17_nested_simulation: GC_Rem with destructors that '
                   'delete other objects, in any well-formed state including mid-sweep with objects on the pending list, refines the same recursion on '
-                  '(ledger, pending addresses) and terminates within the fuel. Source-derived: GC_Ideal_Size(n) > n over the generated prime table '
+                  '(ledger, pending addresses) and terminates within the fuel; C17_sweep_destructors / C17_registry_exact_destructors / '
+                  'C17_progress_destructors: the same history theorem when destructors delete other objects during a sweep or a removal (ledger '
+                  'transitions given by the abstract recursion; finalisation order = the sweep\'s slot order); C17_invB_sound: the executable '
+                  'invariant the driver evaluates implies the propositional one. Source-derived: GC_Ideal_Size(n) > n over the generated prime table '
                   'and load factor, GC_Probe = cyclic distance, GC_Hash = p/8. The model is tied to the real GC.c by comparing the complete entry '
                   'array, counters, bounds and deallocation order after every operation on histories whose addresses collide modulo every registry size.')
     level_note = ('Trusted: Lean kernel; axioms propext/Quot.sound/Classical.choice at most; translate/g_reg.py (regex extraction from src/GC.c); the '
                   'harness/driver comparison (testing, not proof); the double division in GC_Ideal_Size is modelled as exact rational arithmetic '
                   '(compared exhaustively with the C function on a range); malloc returning distinct live blocks is the distinctness assumption. '
-                  'The history theorem is for plain destructors; destructor-issued removals are proved per GC_Rem call (any well-formed state), and '
-                  'whole sweeps with such destructors are covered by the model, the differential check and the oracle only. '
+                  'With destructors that delete other objects the ledger transition of a collection is a relation (it depends on the order in which '
+                  'the sweep lists the reclaimed objects), not a function of the history. '
                   'Not covered: the mark phase itself (C01), finalisation accounting (C06), other threads (C13), allocation inside destructors.')
     rule = ('histories of new/newroot/newraw/tnew/del/delroot/delraw/mem/sweep(marked set)/collect(real GC_Mark)/kill/stop/start over probe objects whose '
             'addresses are chosen in one residue class modulo the product of the first k registry sizes 5,11,23,53,101,197,389 (k = 3..7) plus strays; '
